@@ -42,6 +42,7 @@ class Recorder:
         self.samples: list = []
         self.violations: list = []
         self.vkeys: set = set()
+        self.vclasses: dict = {}
         self.max_violations = max_violations
         self.counters: dict = {}
         self.t0 = time.time()
@@ -64,7 +65,11 @@ class Recorder:
         if key in self.vkeys:
             return
         self.vkeys.add(key)
-        if len(self.violations) < self.max_violations:
+        # every class (check, events) stays represented: a per-class cap, not a global one
+        cls = (check, tuple(events))
+        n = self.vclasses.get(cls, 0)
+        self.vclasses[cls] = n + 1
+        if n < 6 and len(self.violations) < 300:
             self.violations.append(dict(check=check, what=what, call=call, events=list(events)))
         else:
             self.count("violations_not_listed")
